@@ -1,7 +1,5 @@
 use tevec::prelude::*;
 fn main() {
-    let a = vec![1.0f64, 2.0, 3.0, 4.0];
-    let b = vec![1.0f64];
-    let r: Vec<f64> = a.ts_vcov(&b, 2, None);
-    println!("{:?}", r);
+    let s: Vec<f64> = (0..40).map(|i| (i as f64 * 0.05).sin()).collect();
+    println!("half_life = {}", s.half_life(Some(1)));
 }
